@@ -80,7 +80,15 @@ def gen_case(rng, exact):
                 r['no_alpha'] = False
         c['stream'] += ':persistent'
     c['rounds'] = rounds
-    if rounds and all(r['alpha'] and not r['no_alpha'] for r in rounds) and rng.random() < 0.3:
+    if c.get('single_signal') is None and rng.random() < 0.2:
+        # a risk model that strikes one asset off the alpha weights: from there on it is an asset the alpha model is silent on
+        for r in rounds:
+            if r['alpha'] and not r['no_alpha'] and not r['risk_identity']:
+                r['risk_drop'] = rng.choice([a for a, _ in r['alpha']])
+                r['alpha_in'] = r['alpha']
+                r['alpha'] = [[a, w] for a, w in r['alpha'] if a != r['risk_drop']]
+        c['stream'] += ':risk-model-exclusion'
+    elif rounds and all(r['alpha'] and not r['no_alpha'] for r in rounds) and rng.random() < 0.3:
         # the construction model is built with the equal-weight optimiser: the assets the alpha model NAMES share the scale
         # equally (whatever their signals); universe members and holdings it does not name are still targeted at zero
         scale = rng.choice([1.0, 0.5, 2.0]) if kind == 'long_only' else rng.choice([1.0, 1.5, 0.5])
